@@ -1748,7 +1748,7 @@ def _unparenthesize_grouping(self: fst.FST, shared: bool | None = True, *, star_
         if pend_col >= 2 and _re_par_close_alnums.match(l := lines[pend_ln], pend_col - 2):
             lines[pend_ln] = bistr(l[:pend_col - 1] + ' ' + l[pend_col:])
 
-            self._touch()  # no offsetting _put_src() was done so cached pars needs to be cleared explicitly
+            self._touchall(True, True, False)  # no offsetting _put_src() was done so cached pars needs to be cleared explicitly, and cached locations of parents which don't have their own location and calculated it from these pars (withitem, comprehension, etc...)
 
         else:
             self._put_src(None, end_ln, end_col, pend_ln, pend_col, True, self)
@@ -1756,7 +1756,7 @@ def _unparenthesize_grouping(self: fst.FST, shared: bool | None = True, *, star_
         if pcol and _re_par_open_alnums.match(l := lines[pln], pcol - 1):
             lines[pln] = bistr(l[:pcol] + ' ' + l[pcol + 1:])
 
-            self._touch()
+            self._touchall(True, True, False)
 
         else:
             self._put_src(None, pln, pcol, ln, col, False)
